@@ -41,10 +41,10 @@ static void check_segment(const cm_model_t *m, int from, int to, const char *wha
 	/* nothing is addressed to a node that is not there */
 	for (int i = from; i < to; i++) if (sb_find(SB.log[i].addr) < 0) { res_violation("message-to-absent-node: something was commanded for a board that is not connected", "%s: type %02x to %02x.%02x.%02x", what, SB.log[i].type, SB.log[i].addr[0], SB.log[i].addr[1], SB.log[i].addr[2]); break; }
 	/* (1) features */
-	cm_msg_t exp[64]; int ne = 0;
+	cm_msg_t exp[256]; int ne = 0;
 	for (int b = 0; b < m->nb; b++) if (cm_board_connected(m, b)) for (int k = 0; k < m->b[b].nfeatures; k++) {
 		cm_board_addr(m, b, exp[ne].addr); exp[ne].type = MSG_FEATURE_SET; exp[ne].data[0] = m->b[b].features[k].number; exp[ne].data[1] = m->b[b].features[k].value; exp[ne].dlen = 2; ne++; }
-	int used[64]; memset(used, 0, sizeof used);
+	int used[256]; memset(used, 0, sizeof used);
 	for (int i = from; i < to; i++) if (SB.log[i].type == MSG_FEATURE_SET) {
 		int hit = -1; for (int k = 0; k < ne; k++) if (!used[k] && msg_eq(&exp[k], i)) { hit = k; break; }
 		if (hit < 0) res_violation("feature-set-wrong: a feature setting went to a node it is not configured for, or twice", "%s: FEATURE_SET %s to %02x.%02x.%02x", what, hx_hex(SB.log[i].data, (size_t) SB.log[i].dlen), SB.log[i].addr[0], SB.log[i].addr[1], SB.log[i].addr[2]);
@@ -130,6 +130,11 @@ static void spelling_child(const void *job, size_t n) {
 	vs_dev_t devs[VS_MAXDEV]; int nd; size_t pl; const uint8_t *p = job_parse(job, n, devs, &nd, &pl);
 	c20_case_t c = { 2, 2, 1, 0x3F, (uint8_t) (p[0] & 7), 0, 0 };
 	static cm_model_t m; build(&m, &c); m.num_style = (1 + p[0] / 8) % 3; m.reverse_boards = p[0] >= 16;      /* cases 16..23: hexadecimal, boards listed in reverse order */
+	if (p[0] >= 24) {     /* cases 24..27: a train with a function on every slot, all with an initial value, listed in ascending / descending bit order:
+		                 * every group byte of the start-up commands carries the functions switched on before (bit 31 first is the hard order) */
+		m.num_style = 0; m.reverse_boards = 0; c.presence = (uint8_t) (p[0] & 1 ? 3 : 7); build(&m, &c); cm_add_function_train(&m);
+		cm_train_t *ft = &m.t[m.nt - 1]; for (int k = 0; k < ft->nper; k++) { ft->per[k].has_initial = 1; ft->per[k].initial = 1; }
+		if (p[0] & 2) for (int a = 0, b = ft->nper - 1; a < b; a++, b--) { cm_tper_t tmp = ft->per[a]; ft->per[a] = ft->per[b]; ft->per[b] = tmp; } }
 	/* values that differ between decimal, octal and hexadecimal reading */
 	m.b[0].features[1] = (cm_feature_t) {0x65, 10}; m.b[1].features[0] = (cm_feature_t) {0x0C, 0x10}; m.b[1].features[1] = (cm_feature_t) {0x2C, 0x63};
 	hx_child_begin(NULL, 0, 0, NULL, 0, 120ull * 1000000ull);
@@ -137,6 +142,7 @@ static void spelling_child(const void *job, size_t n) {
 	int rc = hx_start_normal(0); hx_quiesce();
 	char what[140]; snprintf(what, sizeof what, "start-up, byte values written in decimal%s", m.num_style == 2 ? " with leading zeros" : "");
 	if (m.reverse_boards) snprintf(what, sizeof what, "start-up, boards listed in reverse order in the configuration (presence mask %d)", c.presence);
+	if (p[0] >= 24) snprintf(what, sizeof what, "start-up, train with an initial value on every function slot, listed in %s bit order (presence mask %d)", p[0] & 2 ? "descending" : "ascending", c.presence);
 	if (rc) res_violation("start-failed", "%s: bidib_start_pointer returned %d", what, rc);
 	else { int reset_at = 0; for (int i = 0; i < SB.nlog; i++) if (SB.log[i].type == MSG_SYS_RESET) reset_at = i; check_segment(&m, reset_at, SB.nlog, what); }
 	hx_emit_ledger_violations("C20");
@@ -144,7 +150,7 @@ static void spelling_child(const void *job, size_t n) {
 	res_printf("O %llx %llx\n", (unsigned long long) h.a, (unsigned long long) h.b);
 	res_finish();
 }
-static size_t spelling_gen(long idx, uint8_t *payload, char *human, size_t hn) { payload[0] = (uint8_t) idx; if (idx >= 16) snprintf(human, hn, "boards listed in reverse order, presence mask %ld", idx % 8); else snprintf(human, hn, "byte values in decimal%s, presence mask %ld", idx / 8 ? " with leading zeros" : "", idx % 8); return 1; }
+static size_t spelling_gen(long idx, uint8_t *payload, char *human, size_t hn) { payload[0] = (uint8_t) idx; if (idx >= 24) snprintf(human, hn, "train with initial values on every function slot, variant %ld", idx - 24); else if (idx >= 16) snprintf(human, hn, "boards listed in reverse order, presence mask %ld", idx % 8); else snprintf(human, hn, "byte values in decimal%s, presence mask %ld", idx / 8 ? " with leading zeros" : "", idx % 8); return 1; }
 static size_t hub_gen(long idx, uint8_t *payload, char *human, size_t hn) { payload[0] = (uint8_t) (idx % 12); payload[1] = (uint8_t) (idx / 12); snprintf(human, hn, "unconfigured-hub tree variant %d, feature/initial profile %d, presence mask %d", 1 + (int) (idx % 12) / 4, (int) (idx % 4), (int) (idx / 12)); return 2; }
 static int stride;
 static size_t c20_gen(long idx, uint8_t *payload, char *human, size_t hn) {
@@ -260,7 +266,7 @@ int c20_run(const char *tier) {
 	ex_spec_t sl = { .harness = "c20.slow", .ncases = 46, .gen = slow_gen, .label = "c20.slow" };
 	ex_map(&sl); e.done += sl.done; e.distinct_outcomes += sl.distinct_outcomes; if (!sl.exhaustive) e.exhaustive = 0;
 	rep_note("c20.slow: %ld start-ups with a slow or stalled board (5 feature counts x 4 delays x {late answers, stall}; track-output state confirmed late x 4 / never / as OFF), %ld delayed messages delivered", sl.done, rep_get("delayed_messages_delivered"));
-	ex_spec_t sp = { .harness = "c20.spelling", .ncases = 24, .gen = spelling_gen, .label = "c20.spelling" };
+	ex_spec_t sp = { .harness = "c20.spelling", .ncases = 28, .gen = spelling_gen, .label = "c20.spelling" };
 	ex_map(&sp); e.done += sp.done; e.distinct_outcomes += sp.distinct_outcomes; if (!sp.exhaustive) e.exhaustive = 0;
 	rep_note("c20.spelling: %ld start-ups with byte values written in decimal / decimal with leading zeros / boards listed in reverse order", sp.done);
 	rep_note("c20.hub: %ld start-ups with configured boards beneath a hub the configuration does not mention", hb.done);
